@@ -34,6 +34,8 @@ CORPORA = {
                     family="history", trace="StreamTrace.tla", tracecfg="StreamTrace.cfg"),
     "conc": dict(gen="History.tla", cfg={"quick": "conc_quick.cfg", "thorough": "conc_thorough.cfg"},
                  family="conc", trace="StreamTrace.tla", tracecfg="StreamTrace.cfg"),
+    "flow": dict(gen="MCFlowGen.tla", cfg={"quick": "flowgen_quick.cfg", "thorough": "flowgen_thorough.cfg"},
+                 family="flow", trace="FlowTrace.tla", tracecfg="FlowTrace.cfg"),
     "stream_headers": dict(gen="MCStream.tla", cfg={"quick": "stream_headers_quick.cfg", "thorough": "stream_headers_thorough.cfg"},
                            family="stream", trace="StreamTrace.tla", tracecfg="StreamTrace.cfg"),
 }
@@ -58,6 +60,7 @@ PROPS = {
     "C14": dict(corpora=["conc"], prefix="C14.", design=[("MCPool.tla", "pool_conc2.cfg")],
                 design_thorough=[("MCPool.tla", "pool_conc.cfg")]),
     "C15": dict(corpora=["history"], prefix="C15.", design=[("MCPool.tla", "pool_seq.cfg")]),
+    "C16": dict(corpora=["flow"], prefix="C16.", design=[("Flow.tla", "flow_ok.cfg")]),
     "C17": dict(corpora=["config"], prefix="C17."),
     "C19": dict(corpora=["stream_get", "stream_matrix"], prefix="C19."),
     "C18": dict(corpora=["stream_reject", "stream_matrix", "stream_faults"], prefix="C18."),
